@@ -114,6 +114,23 @@ def run(chk, ctx):
                     chk.cov.setdefault('render_disagreements', []).append(dict(blt=blt, options=o, difference=r['diff']))
                     chk.violation("rendering %s: model and implementation disagree" % r['diff'].get('which'),
                                   dict(blt=blt, options=o, difference=r['diff']), found_input=False)
+    # ---- (c) interrupted counts, rendered in the driver's order report -> dump -> JSON: the three renderings and the record
+    #      agree on the interruption too (one mark, the same actions, valid JSON)
+    import interrupt_driver as idr
+    nint = 0
+    want = 10 if quick else 300
+    for blt, o in cases[::max(1, len(cases) // want)][:want]:
+        try:
+            full, nlines = idr.full_run(blt, o)
+        except BaseException:
+            continue
+        for k in sorted(set(8 * rng.randint(1, max(1, nlines // 8)) for _ in range(3))):
+            bad, where = idr.interrupted_run(blt, o, k, full)      # k % 8 == 0: report, dump, json
+            nint += 1; chk.count()
+            for b in bad:
+                chk.violation("interrupted count rendered as report, dump, JSON: " + b['kind'], dict(blt=blt, options=o, k=k, failure=b),
+                              signature=dict(kind='c18-interrupted', failure=b['kind']))
+    chk.cov['interrupted_counts_rendered'] = nint
     chk.cov['render_cases'] = len(rcases)
     chk.cov['render_decorated_cases'] = len(extra)
     chk.cov['render_input_distribution'] = {"/".join(str(x) for x in k): v for k, v in sorted(dist.items(), key=str)}
@@ -124,6 +141,12 @@ def run(chk, ctx):
         chk.sample(dict(blt=rcases[-1][0], options=rcases[-1][1], status=rres[-1]['status'], sizes=rres[-1].get('sizes')))
 
 def replay(chk, payload):
+    if 'k' in payload:
+        import interrupt_driver as idr
+        full, nlines = idr.full_run(payload['blt'], payload['options'])
+        bad, where = idr.interrupted_run(payload['blt'], payload['options'], payload['k'], full)
+        print("interrupted at", where, "->", bad or "renderings agree")
+        return 1 if bad else 0
     bad = cc.replay(chk, payload, ORACLES)
     r = rd.run_cases([(payload['blt'], payload['options'])], oracle_names=RENDER_ORACLES, timeout=60, use_model=True, intr_every=0)[0]
     print("render status:", r['status'], "model:", r.get('model_status'))
